@@ -41,7 +41,7 @@ def context_kinds(ea) -> Dict[str, Dict[str, Any]]:
                 if c.is_try:
                     continue
                 name = LOOP_KINDS.get(br.cls, "switch" if br.cls == "SwitchStatement" else ("label" if br.cls == "LabeledStatement" else br.cls))
-                kinds[name] = dict(is_loop=c.is_loop, labelled=c.labelled, stack_items=c.stack_items, is_try=False, handler_active=False, finalizer=False, line=c.line)
+                kinds[name] = dict(is_loop=c.is_loop, labelled=c.labelled, stack_items=c.stack_items, is_try=False, handler_active=False, finalizer=False, line=c.line, ctor=getattr(c, "ctor", None))
             # try regions: the declared state of the try context at every nested statement it encloses
             evs = e.events
             by_line = {c.line: c for c in e.ctxs}
@@ -97,7 +97,44 @@ def _mk(kinds, name: str, label: Optional[str], classes) -> Obj:
         label = "ANON"  # a labelled statement always has its label
     o = Obj(_cls="LoopContext", kind=name, break_jumps=[], continue_jumps=[], label=(label if k["labelled"] else None), labels=[], is_loop=k["is_loop"],
             stack_items=k["stack_items"], is_try=k["is_try"], handler_active=k["handler_active"], finalizer=(Obj(kind="finally-of-" + name) if k["finalizer"] else None))
+    # fields of the context class that the fixed model above does not know (a flag a refactoring added): taken from
+    # the construction as the compiler writes it - the constructor, or the helper that builds the context - when its
+    # arguments are constants; otherwise from the declared defaults
+    for fld, val in _declared_fields(k.get("ctor"), classes).items():
+        if not hasattr(o, fld):
+            setattr(o, fld, val)
     return o
+
+
+_FIELDS_CACHE: Dict[int, Dict[str, Any]] = {}
+_METHODS_FOR_FIELDS: List[Dict[str, ast.FunctionDef]] = []
+
+
+def _declared_fields(ctor: Optional[ast.Call], classes) -> Dict[str, Any]:
+    key = id(ctor)
+    if key in _FIELDS_CACHE:
+        return _FIELDS_CACHE[key]
+    out: Dict[str, Any] = {}
+    cd = classes.get("LoopContext")
+    methods = _METHODS_FOR_FIELDS[0] if _METHODS_FOR_FIELDS else {}
+    built = None
+    if ctor is not None and all(isinstance(a, ast.Constant) for a in ctor.args) and all(isinstance(kw.value, ast.Constant) for kw in ctor.keywords):
+        sim = Sim({"self": Obj(_pending_labels=[], loop_stack=[]), "None": None, "True": True, "False": False}, methods, classes)
+        try:
+            built = sim.ev(ctor)
+        except (Unsupported, Aborted, _Return, AttributeError, KeyError):
+            built = None
+    if isinstance(built, Obj):
+        out = {k: v for k, v in built.__dict__.items() if not k.startswith("_")}
+    elif cd is not None:
+        sim = Sim({"None": None, "True": True, "False": False}, {}, classes)
+        try:
+            d = sim._construct("LoopContext", ast.Call(func=ast.Name(id="LoopContext", ctx=ast.Load()), args=[], keywords=[]))
+            out = {k: v for k, v in d.__dict__.items() if not k.startswith("_")}
+        except (Unsupported, Aborted):
+            out = {}
+    _FIELDS_CACHE[key] = out
+    return out
 
 
 def _expected(crossed_inner_first: List[Obj], drop_operands: bool) -> List[Tuple]:
@@ -120,6 +157,8 @@ def simulate(ea) -> List[Dict[str, Any]]:
     if not need <= set(kinds):
         raise AnalysisError(f"context kinds not all recognised: have {sorted(kinds)}, need {sorted(need)}")
     methods, classes = _methods_and_classes(ea)
+    _METHODS_FOR_FIELDS[:] = [methods]
+    _FIELDS_CACHE.clear()
     f, chain, _ = ea.node_chain("_compile_statement")
     bodies = {}
     for classes_, body, line in chain:
